@@ -19,6 +19,11 @@ VecPool(dim) ==
    ELSE {<<1, dim>>, <<dim, 1>>, <<2, 2>>, <<0, 1>>, <<1, dim + 1>>, <<dim, dim - 1>>})
   \cup {<<i>> : i \in {1, dim}}
   \cup (IF dim >= 3 THEN {<<dim, 1, 2>>, [k \in 1..dim |-> dim + 1 - k], <<1, 2, dim + 1>>} ELSE {})
+  \* index vectors WITH REPEATS whose length equals (or exceeds) the number of addressable elements: they address
+  \* fewer elements than they have entries (a kernel must not take "as many entries as elements" for "all elements")
+  \cup (IF dim >= 2 THEN {[k \in 1..dim |-> IF k = 1 THEN 1 ELSE k - 1], [k \in 1..dim |-> 1],
+                          [k \in 1..dim |-> ((k - 1) % (dim - 1)) + 1], [k \in 1..(dim + 1) |-> ((k - 1) % dim) + 1],
+                          [k \in 1..dim |-> IF k = dim THEN dim + 1 ELSE k]} ELSE {})
 
 RangeSeq(a, b) == [k \in 1..(b - a + 1) |-> a + k - 1]
 RangePool(dim) == {RangeSeq(a, b) : a \in 0..dim, b \in 1..(dim + 1)} \ {<<>>}
